@@ -369,11 +369,16 @@ class TelstateDataSource(DataSource):
         self.telstate = TelstateToStr(telstate)
         # Collect sensors
         sensors = {}
+        namespace_ranks = {}
         for key in telstate.keys():
             if telstate.key_type(key) == katsdptelstate.KeyType.MUTABLE:
                 sensor_name = _shorten_key(telstate, key)
                 if sensor_name:
-                    sensors[sensor_name] = TelstateSensorGetter(telstate, key)
+                    # If several namespaces define the sensor, the most specific one (earliest prefix) wins
+                    rank = telstate.prefixes.index(key[:len(key) - len(sensor_name)])
+                    if rank <= namespace_ranks.get(sensor_name, rank):
+                        namespace_ranks[sensor_name] = rank
+                        sensors[sensor_name] = TelstateSensorGetter(telstate, key)
         metadata = AttrsSensors(telstate, sensors)
         if chunk_store is not None or timestamps is None:
             chunk_info = telstate['chunk_info']
